@@ -7,6 +7,7 @@ import (
 	"bytes"
 	"crypto"
 	"crypto/rsa"
+	"encoding/binary"
 	"flag"
 	"fmt"
 	"math/big"
@@ -512,6 +513,19 @@ func proofs(o *vlib.Out, rng *rand.Rand, reps int) {
 			uid, oi := []byte("user"), []byte("other info")
 			sp := dl.Prove(g, G1, kG, k, uid, oi, rd)
 			rec(sobj, "none", func() bool { return dl.Verify(g, G1, kG, sp, uid, oi) })
+			// the honest proof satisfies the verification equation for the challenge the package documents - H(G | V | A | len|UserID |
+			// len|OtherInfo) (RFC 8235: the coin binds the public key) - computed here, not by the library
+			rec(sobj, "none", func() bool {
+				gb, _ := G1.MarshalBinary()
+				vb, _ := sp.V.MarshalBinary()
+				ab, _ := kG.MarshalBinary()
+				t := append(append(append([]byte{}, gb...), vb...), ab...)
+				t = append(append(binary.BigEndian.AppendUint32(t, uint32(len(uid))), uid...), binary.BigEndian.AppendUint32(nil, uint32(len(oi)))...)
+				t = append(t, oi...)
+				c := g.HashToScalar(t, oi)
+				rhs := g.NewElement().Add(g.NewElement().Mul(G1, sp.R), g.NewElement().Mul(kG, c))
+				return sp.V.IsEqual(rhs)
+			})
 			rec(sobj, "proof-v", func() bool { return dl.Verify(g, G1, kG, dl.Proof{V: g.NewElement().Add(sp.V, G1), R: sp.R}, uid, oi) })
 			rec(sobj, "proof-s", func() bool {
 				return dl.Verify(g, G1, kG, dl.Proof{V: sp.V, R: g.NewScalar().Add(sp.R, g.NewScalar().SetUint64(1))}, uid, oi)
